@@ -972,6 +972,12 @@ func (eval Evaluator) MulThenAdd(op0 *rlwe.Ciphertext, op1 rlwe.Operand, opOut *
 			if cmplxBig.IsInt() {
 				scaleRLWE = rlwe.NewScale(1)
 			} else {
+
+				// opOut is scaled before op0 is read: they cannot be the same ciphertext
+				if op0.El() == opOut.El() {
+					return fmt.Errorf("cannot MulThenAdd: opOut must be different from op0 when op1 is not a Gaussian integer")
+				}
+
 				scaleRLWE = rlwe.NewScale(ringQ.SubRings[level].Modulus)
 
 				for i := 1; i < eval.GetParameters().LevelsConsumedPerRescaling(); i++ {
@@ -1012,6 +1018,11 @@ func (eval Evaluator) MulThenAdd(op0 *rlwe.Ciphertext, op1 rlwe.Operand, opOut *
 
 		var scaleRLWE rlwe.Scale
 		if cmp := op0.Scale.Cmp(opOut.Scale); cmp == 0 { // If op0 and opOut scales are identical then multiplies opOut by scaleRLWE.
+
+			// opOut is scaled before op0 is read: they cannot be the same ciphertext
+			if op0.El() == opOut.El() {
+				return fmt.Errorf("cannot MulThenAdd: opOut must be different from op0")
+			}
 
 			scaleRLWE = rlwe.NewScale(ringQ.SubRings[level].Modulus)
 
